@@ -111,7 +111,21 @@ def pins_of(p):
     return [p.htype, p.hdigest.hex(), p.header_len]
 
 
-def mode_lines(mode, pins):
+def prev_file(base, mode):
+    """the other file a re-used context has seen first: the detached twin of a full file / a full file for a detached header"""
+    p = zckref.parse(base)
+    if p.detached:
+        return zckref.MAGIC_FILE + base[5:]
+    return universe.detach(base)
+
+
+def mode_lines(mode, pins, base=None):
+    if mode.startswith("advprev"):
+        return ["mode adv", "prev %s %s" % (mode[-1], prev_file(base, mode).hex())]
+    return _mode_lines(mode, pins)
+
+
+def _mode_lines(mode, pins):
     """advlate: advanced open in which the caller pins the genuine type, digest and length between reading the lead and
     reading the header - whatever the library does with pins at that point, the stored checksum still has to match"""
     if mode == "advlate":
@@ -122,7 +136,7 @@ def mode_lines(mode, pins):
 def check_base(arg):
     name, base, mode = arg
     p = zckref.parse(base)
-    job = mode_lines(mode, pins_of(p)) + ["base %s" % base.hex(), "file %s" % base.hex(), "subst 0 %d" % p.header_len]
+    job = mode_lines(mode, pins_of(p), base) + ["base %s" % base.hex(), "file %s" % base.hex(), "subst 0 %d" % p.header_len]
     extra = []
     for r in RECIPES:
         m = base[:p.digest_loc] + wrong_digest(base, p, r) + base[p.lead_len:]
@@ -230,10 +244,14 @@ def run(ctx):
     bases = base_files(ctx)
     ctx.bounds = {"base_files": len(bases), "substitutions": "all 255 at every header position",
                   "indels": "every position x {delete, insert 00, duplicate}", "wrong_recipes": RECIPES,
-                  "modes": ["zck_init_read", "adv: read_lead+read_header", "advlate: genuine pins set between lead and header"]}
+                  "modes": ["zck_init_read", "adv: read_lead+read_header", "advlate: genuine pins set between lead and header", "advprev1: the context validated the lead of the twin under the other identifier first (every second base)"]}
     ctx.rule = ("mutant = (base file, header edit); distinct by construction; non-trivial = mutant that passed lead "
                 "parsing and was rejected by the header digest comparison itself")
     args = [(n, b, "init") for n, b in bases] + [(n, b, "adv") for n, b in bases] + [(n, b, "advlate") for n, b in bases]
+    # a context with a past: it has validated the lead of the file's twin under the other identifier before
+    # zck_init_adv_read() is called again with the file under test (after a complete open of another file this library
+    # refuses every further file on the context, so that past would explore nothing)
+    args += [(n, b, "advprev1") for n, b in bases[::2]]
     results = core.pmap(check_base, args)
     bmap = dict(bases)
     for r in results:
@@ -253,7 +271,7 @@ def run(ctx):
             ctx.violation({"check": "C06", "predicate": "valid-base-does-not-open", "writer": r["name"].split(":")[0],
                            "mode": r["mode"]},
                           "unmutated file %s does not open" % r["name"],
-                          {"kind": "file", "mode": r["mode"], "file": base.hex(), "expect_open": True, "pins": pins_of(p)})
+                          {"kind": "file", "mode": r["mode"], "file": base.hex(), "base": base.hex(), "expect_open": True, "pins": pins_of(p)})
         for o in r["opened"]:
             ctx.outcomes.add(("opened", o[0]))
             if o[0] == "subst":
@@ -263,12 +281,12 @@ def run(ctx):
                        "mode": r["mode"]}
                 ctx.violation(sig, "%s: header byte %d (%s) %02x->%02x still opens" % (r["name"], pos, region(p, pos),
                                                                                         base[pos], v),
-                              {"kind": "file", "mode": r["mode"], "file": bytes(m).hex(), "expect_open": False, "pins": pins_of(p)})
+                              {"kind": "file", "mode": r["mode"], "file": bytes(m).hex(), "base": base.hex(), "expect_open": False, "pins": pins_of(p)})
             else:
                 _, n, mh = o
                 sig = {"check": "C06", "predicate": "mutant-opens", "edit": n.split("@")[0], "mode": r["mode"]}
                 ctx.violation(sig, "%s: mutant %s still opens" % (r["name"], n),
-                              {"kind": "file", "mode": r["mode"], "file": mh, "expect_open": False, "pins": pins_of(p)})
+                              {"kind": "file", "mode": r["mode"], "file": mh, "base": base.hex(), "expect_open": False, "pins": pins_of(p)})
         ctx.outcomes.add(("rejected",))
     # allocation failures: the comparison must not be skipped when an allocation on the way fails
     quick = ctx.tier == "quick"
@@ -323,7 +341,7 @@ def run(ctx):
 
 def replay(case, quiet=True):
     if case["kind"] == "file":
-        cs = core.drv("openenum", "\n".join(mode_lines(case["mode"], case.get("pins"))) + "\nbase 00\nfile %s\n" % case["file"])
+        cs = core.drv("openenum", "\n".join(mode_lines(case["mode"], case.get("pins"), bytes.fromhex(case.get("base") or case["file"]))) + "\nbase 00\nfile %s\n" % case["file"])
         c = cs[0]
         if not c.ok:
             return {"violated": True, "detail": c.status()}
